@@ -6,7 +6,7 @@ import itertools
 from pams.logs import CancelLog, ExecutionLog, ExpirationLog, OrderLog
 from pams.order import Cancel, Order, LIMIT_ORDER, MARKET_ORDER
 
-from sx import sand, sor, snot, ite, is_sym
+from sx import sand, sor, snot, ite, is_sym, aeq
 from sx.driver import Harness
 from .common import RecLogger, mk_market, new_order, ranks_before, tick, PRICE_HI, VOL_HI
 
@@ -399,7 +399,8 @@ class OpHistory(Harness):
         if not st["ever_trade"]:
             g.require(vw != vw, "C08.vwap-nan-without-volume")
         else:
-            g.require(vw * tot_v == tot_p, "C08.vwap", "VWAP differs from cumulative turnover / volume")
+            # same quotient, built the same way: z3's normal form makes both sides one term (no nonlinear query)
+            g.require(aeq(vw, tot_p / tot_v), "C08.vwap", "VWAP differs from cumulative turnover / volume")
 
     def _final(self, g, m, lg, ref, st):
         if "C04" not in self.props:
